@@ -5,6 +5,7 @@
 package ucops
 
 import (
+	"github.com/prometheus/client_golang/prometheus/testutil"
 	"sync/atomic"
 	"bytes"
 	"context"
@@ -322,37 +323,34 @@ func errTag(err error) string {
 	return storeops.ErrClass(err)
 }
 
-// cycleResult renders what a refresher / reviver cycle logged: "ok:<count>" or the error class.
-func cycleResult(logged string) string {
+// cycleResult renders the outcome of a refresher / reviver cycle: "ok:<count>" or the error class.  The count is the one the
+// cycle reports: the `count` member of its log line, or — when the line is worded differently — what it added to the
+// `discovery_queue_produced` counter (produced = the counter's growth over the cycle).  An error is a line that carries an
+// `error` member, or the harness's own fault marker in any string member; neither the level nor the wording of a line,
+// nor the name of any other field, decides anything.
+func cycleResult(logged string, produced float64) string {
+	count, haveCount := 0, false
 	for _, line := range strings.Split(strings.TrimSpace(logged), "\n") {
 		var m map[string]any
 		if json.Unmarshal([]byte(line), &m) != nil {
 			continue
 		}
-		if lvl, _ := m["level"].(string); lvl == "warn" || lvl == "error" {
-			if e, _ := m["error"].(string); strings.Contains(e, "injected storage fault") {
+		for _, v := range m {
+			if sv, ok := v.(string); ok && strings.Contains(sv, "injected storage fault") {
 				return "err:storage"
 			}
+		}
+		if _, ok := m["error"]; ok {
 			return "err:cycle"
 		}
-		if c, ok := m["count"].(float64); ok {
-			return fmt.Sprintf("ok:%d", int(c))
-		}
-		// the count under another name: the one numeric member of the cycle's info line (the name of a log field is no
-		// part of any property)
-		if lvl, _ := m["level"].(string); lvl == "info" {
-			n, found := 0, 0
-			for k, v := range m {
-				if f, ok := v.(float64); ok && k != "time" {
-					n, found = int(f), found+1
-				}
-			}
-			if found == 1 {
-				return fmt.Sprintf("ok:%d", n)
-			}
+		if c, ok := m["count"].(float64); ok && !haveCount {
+			count, haveCount = int(c), true
 		}
 	}
-	return "ok:0"
+	if !haveCount {
+		count = int(produced)
+	}
+	return fmt.Sprintf("ok:%d", count)
 }
 
 // Client returns the operation for a client spec:
@@ -413,8 +411,9 @@ func Client(spec string) func(p *world.Proc) string {
 			iv, _ := strconv.ParseInt(parts[1], 10, 64)
 			var buf bytes.Buffer
 			lg := zerolog.New(&buf)
+			before := testutil.ToFloat64(p.Metrics.DiscoveryQueueProduced)
 			refresher.VerifRefresh(ctx, p.W.Clock, &lg, p.UC.RefreshServers, refresher.Config{RefreshInterval: time.Duration(iv)})
-			return cycleResult(buf.String())
+			return cycleResult(buf.String(), testutil.ToFloat64(p.Metrics.DiscoveryQueueProduced)-before)
 		}
 	case "revive":
 		// one cycle of the reviver component (its own scope / countdown / deadline computation)
@@ -424,9 +423,10 @@ func Client(spec string) func(p *world.Proc) string {
 			cd, _ := strconv.ParseInt(parts[3], 10, 64)
 			var buf bytes.Buffer
 			lg := zerolog.New(&buf)
+			before := testutil.ToFloat64(p.Metrics.DiscoveryQueueProduced)
 			reviver.VerifRevive(ctx, p.W.Clock, &lg, p.UC.ReviveServers, reviver.Config{
 				RevivalInterval: time.Duration(iv), RevivalScope: time.Duration(scope), RevivalCountdown: time.Duration(cd)})
-			return cycleResult(buf.String())
+			return cycleResult(buf.String(), testutil.ToFloat64(p.Metrics.DiscoveryQueueProduced)-before)
 		}
 	case "addserver":
 		return func(p *world.Proc) string {
